@@ -44,9 +44,12 @@ func InitGenesis(ctx sdk.Context, k keeper.Keeper, genState types.GenesisState) 
 			vs = append(vs, abci.ValidatorUpdate{Power: int64(validator.Power), PubKey: validator.CMPubkey()})
 		}
 
-		err = k.PowerRanking.Set(ctx, collections.Join(validator.Power, address))
-		if err != nil {
-			panic(err)
+		// only validators with voting power are ranked, as at run time
+		if validator.Power > 0 {
+			err = k.PowerRanking.Set(ctx, collections.Join(validator.Power, address))
+			if err != nil {
+				panic(err)
+			}
 		}
 	}
 
